@@ -36,7 +36,7 @@ from ..iodata import IOData
 from ..orbitals import MolecularOrbitals
 from ..prepare import prepare_segmented, prepare_unrestricted_aminusb
 from ..utils import DumpError, LineIterator, LoadError, LoadWarning, PrepareDumpError, angstrom
-from .molden import CONVENTIONS, _fix_molden_from_buggy_codes
+from .molden import CONVENTIONS, _fix_molden_from_buggy_codes, _sort_shells_by_center
 
 __all__ = ()
 
@@ -346,11 +346,11 @@ def dump_one(f: TextIO, data: IOData):
     # BASIS
     f.write("$BASIS\n")
     iatom_last = 0
-    for shell in data.obasis.shells:
+    # The shells must be sorted by center, with one separator for every next atom.
+    for shell in _sort_shells_by_center(data.obasis)[0].shells:
         if shell.ncon != 1:
             raise RuntimeError("Generalized contractions not supported. Call prepare_dump first.")
-        iatom_new = shell.icenter
-        if iatom_new != iatom_last:
+        for _ in range(shell.icenter - iatom_last):
             f.write("$$\n")
         angmom = shell.angmoms[0]
         kind = shell.kinds[0]
@@ -397,7 +397,9 @@ def dump_one(f: TextIO, data: IOData):
 
 # Defining help dumping functions
 def _dump_helper_coeffs(f, data, spin=None):
-    permutation, signs = convert_conventions(data.obasis, CONVENTIONS)
+    obasis, basis_perm = _sort_shells_by_center(data.obasis)
+    permutation, signs = convert_conventions(obasis, CONVENTIONS)
+    permutation = basis_perm[permutation]
     if spin == "a":
         norb = data.mo.norba
         coeff = data.mo.coeffsa[permutation] * signs.reshape(-1, 1)
